@@ -31,6 +31,7 @@ func (c10) Cases(tier string, seed int64, kf *KnownFindings) []Case {
 	add := func(c Case) { c.Sub = -1; cs = append(cs, c) }
 	add(Case{Kind: "table"})
 	add(Case{Kind: "bulk", Seed: Mix(seed, 4244)})
+	add(Case{Kind: "shapes", Seed: Mix(seed, 4246), Count: 150})
 	n, per := 16, 2000
 	if tier == "thorough" {
 		n, per = 200, 20000
@@ -94,6 +95,18 @@ func timeFeatures(t time.Time) []string {
 		feats = append(feats, "time.subms")
 	}
 	return feats
+}
+
+type c10Event struct {
+	At time.Time
+	N  int32
+}
+
+type c10Log struct {
+	Stamps []time.Time
+	First  *c10Event
+	Last   *c10Event
+	Again  *c10Event
 }
 
 func (c10) Run(c Case, env *Env) Result {
@@ -187,6 +200,69 @@ func (c10) Run(c Case, env *Env) Result {
 		}
 	}
 	switch c.Kind {
+	case "shapes":
+		// message shapes around the instants: timestamp lists in front of shared pointers (a list of timestamps
+		// takes a reference number, a timestamp does not), a struct with a timestamp reached through a
+		// back-reference, and zero timestamps inside lists that travel untyped (class-only type map)
+		tab := dateTable()
+		r := rand.New(rand.NewSource(c.Seed))
+		o1 := time.Unix(1000000000, 5e6)
+		for j := 0; j < c.Count; j++ {
+			t := tab[r.Intn(len(tab))]
+			if r.Intn(2) == 0 {
+				t = time.Unix(minSec+r.Int63n(maxSec-minSec+1), r.Int63n(1000)*1e6)
+			}
+			if t.Unix() < minSec || t.Unix() > maxSec || t.IsZero() || (c.Sub >= 0 && j != c.Sub) {
+				continue
+			}
+			res.Evals++
+			res.NT = append(res.NT, Hash64(fmt.Sprintf("shapes|%d|%d|%d", j%4, t.Unix(), t.Nanosecond())))
+			feats := append(timeFeatures(t), "pos=shapes")
+			cc := c
+			cc.Sub = j
+			viol := func(class, detail string) {
+				env.Viol(&res, Violation{Class: class, Features: feats, Detail: fmt.Sprintf("%s (unix %d.%09d): %s", t.UTC().Format(time.RFC3339Nano), t.Unix(), t.Nanosecond(), detail), Case: cc})
+			}
+			first, last := &c10Event{At: t, N: 1}, &c10Event{At: o1, N: 2}
+			in := &zoo.Inner{A: 1, S: "in"}
+			var v interface{}
+			classOnly := j%4 >= 2
+			switch j % 4 {
+			case 0:
+				v = &c10Log{Stamps: []time.Time{o1, t}, First: first, Last: last, Again: first}
+			case 1:
+				v = &zoo.TimesThenRefs{T: []time.Time{t}, A: in, B: &zoo.Inner{A: 2, S: "other"}, U: []time.Time{o1, t, o1}, C: in}
+			case 2:
+				v = &c10Log{Stamps: []time.Time{o1, {}, t, {}}, First: first, Last: last, Again: last}
+			default:
+				v = &zoo.SlTime{V: []time.Time{{}, t, o1, {}, {}}}
+			}
+			var o rtOut
+			how := "name and type maps of the value"
+			if classOnly {
+				o = classOnlyRoundTrip(v)
+				how = "nil name map / class-only type map"
+				res.Count("zero_timestamps_in_untyped_lists", 1)
+			} else {
+				o = roundTrip(v)
+				res.Count("timestamp_lists_before_back_references", 1)
+			}
+			switch {
+			case o.Panic != nil:
+				viol(o.Panic.Class, how+": "+o.Stage+" panic "+o.Panic.Msg)
+			case o.EncErr != nil:
+				viol("enc-error", how+": "+o.EncErr.Error())
+			case o.DecErr != nil:
+				viol("dec-error", fmt.Sprintf("%s (%s) %v", how, hexClip(o.Wire), o.DecErr))
+			default:
+				if d := zoo.Equiv(v, o.Dec, zoo.EquivOpts{}); d != "" {
+					viol("mismatch:instant", fmt.Sprintf("%s (%s): %s", how, hexClip(o.Wire), d))
+				} else if d := zoo.SameSharing(v, o.Dec); d != "" {
+					viol("mismatch:sharing", fmt.Sprintf("%s (%s): %s", how, hexClip(o.Wire), d))
+				}
+			}
+		}
+		res.Sample(map[string]interface{}{"kind": "message shapes around timestamps", "count": c.Count})
 	case "bulk":
 		bulkCheck(env, &res, c, "time")
 		res.Sample(map[string]interface{}{"kind": "bulk", "what": "1200 timestamps in one list and timestamps behind 4070..4100 bytes of padding"})
